@@ -321,6 +321,9 @@ class Case:
             if self.gone or st != "PROXY_CONNECTING":
                 return False
             self.feed(b"HTTP/1.1 200 Connection established\r\n\r\n" if k == "proxyok" else b"HTTP/1.1 403 Forbidden\r\n\r\n")
+        elif k in ("sendMessage", "sendPing", "sendPong", "sendPrepared", "beginMessage", "sendMessageFrame", "endMessage",
+                   "sendMessageSync", "sendChopped") and st == "OPEN" and int(getattr(self.p, "send_state", 0)) == 3:
+            return False        # the application itself writing into its own unfinished frame: API misuse
         elif k == "sendClose":
             code, rh = ev[1], ev[2]
             kw = {}
@@ -343,9 +346,13 @@ class Case:
             if st == "OPEN" and int(getattr(self.p, "send_state", 0)) == 0:
                 return False
             c.call("endMessage"); self.settle()
-        elif k == "beginMessageFrame":      # raw streaming calls (oracle-only family)
+        elif k == "beginMessageFrame":      # raw streaming calls (oracle-only family); offered only where the API allows them
+            if st == "OPEN" and int(getattr(self.p, "send_state", 0)) not in (1, 2):
+                return False
             c.call("beginMessageFrame", int(ev[1])); self.settle()
         elif k == "sendMessageFrameData":
+            if st == "OPEN" and int(getattr(self.p, "send_state", 0)) != 3:
+                return False
             c.call("sendMessageFrameData", b"x" * int(ev[1])); self.settle()
         elif k == "sendPrepared":
             pm = c.factory.prepareMessage(b"PM", isBinary=True)
